@@ -18,6 +18,17 @@ WLow(x)  == Rq("write", 1, 0, 4, "INT", [ i \in 1 .. 4 |-> V(x + i) ])       \* 
 WHigh(x) == Rq("write", 1, 4, 4, "INT", [ i \in 1 .. 4 |-> V(x + i) ])       \* private range [4,8)
 RU       == Rq("read", 2, 0, 2, "DINT", <<>>)
 WU       == Rq("write", 2, 0, 2, "DINT", << <<1, 2, 3, 4>>, <<5, 6, 7, 8>> >>)
+\* the generic attribute services on the same storage: Get Attribute Single of the whole tag, Get Attribute List on its object
+GAS1 == [Rq("gas", 1, 0 - 1, 0, "INT", <<>>) EXCEPT !.mode = "cia"]
+GAL1 == [Rq("gal", 1, 0 - 1, 0, "INT", <<>>) EXCEPT !.mode = "cia"] @@ [attrs |-> <<1>>]
+\* connected messaging: both sessions open a connection with the SAME connection serial 7 (their choice to make), use it, one closes
+KSide(id, type) == [id |-> id, rpi |-> <<64, 66, 15, 0>>, size |-> 500, variable |-> 1, priority |-> 0, type |-> type, redundant |-> 0]
+KFO(s) == [prio |-> 5, ticks |-> 157, ot |-> KSide(<<17, 0, 0, s>>, 2), to |-> KSide(<<9, 8, 7, s>>, 2),
+           serial |-> 7, vendor |-> 4919, oserial |-> <<120, 86, 52, s>>, mult |-> 1, trigger |-> 163,
+           cpath |-> << [k |-> "port", p |-> 1, l |-> 0], [k |-> "class", v |-> 2], [k |-> "inst", v |-> 1] >>]
+Open(s)  == [svc |-> "fwdopen", fo |-> KFO(s), ms |-> <<>>]
+Shut(s)  == [svc |-> "fwdclose", fo |-> KFO(s), ms |-> <<>>]
+Via(s, r) == r @@ [cid |-> <<17, 0, 0, s>>]                                 \* a request sent over the session's connection
 Bundle(ms) == [svc |-> "multi", tag |-> 0, mode |-> "sym", idx |-> 0 - 1, n |-> 0, off |-> 0, typ |-> "INT", vals |-> <<>>, bytes |-> <<>>, ms |-> ms]
 
 KOps == CASE Which = "torn"    -> << <<WAll(7)>>, <<RAll>> >>
@@ -25,22 +36,32 @@ KOps == CASE Which = "torn"    -> << <<WAll(7)>>, <<RAll>> >>
           [] Which = "bundle"  -> << <<Bundle(<<WLow(30), RAll, WU>>)>>, <<RAll, WHigh(40)>> >>
           [] Which = "three"   -> << <<WAll(1)>>, <<WAll(2)>>, <<RAll, RU>> >>
           [] Which = "mixed"   -> << <<WLow(50), Bundle(<<RAll, WHigh(60)>>)>>, <<WAll(9), RAll>> >>
+          [] Which = "conn"    -> << <<Open(1), Via(1, WLow(70)), Shut(1)>>, <<Open(2), Via(2, RAll), Via(2, WHigh(80))>> >>
+          [] Which = "attr"    -> << <<WAll(7), WAll(8)>>, <<GAS1, GAL1, GAS1>> >>
 
 \* private ranges keep the last value their only writer wrote (C09 "no lost private write"), at the end of every execution
 PrivateKept ==
   AllDone => CASE Which = "private" -> cmem[1] = [ i \in 1 .. 8 |-> IF i <= 4 THEN V(10 + i) ELSE V(20 + (i - 4)) ]
                [] Which = "bundle"  -> cmem[1] = [ i \in 1 .. 8 |-> IF i <= 4 THEN V(30 + i) ELSE V(40 + (i - 4)) ]
+               [] Which = "conn"    -> cmem[1] = [ i \in 1 .. 8 |-> IF i <= 4 THEN V(70 + i) ELSE V(80 + (i - 4)) ] /\ ctab = { <<2, 7>> }
                [] OTHER -> TRUE
 \* a multi-element read never observes part of a multi-element write (all-equal writes => all-equal reads)
 NoTornRead == \A s \in Sessions : \A i \in 1 .. Len(got[s]) :
-                 (got[s][i].k = "ok" /\ Len(got[s][i].data) = 8 /\ Which \in {"torn", "three"}) => \A a, b \in 1 .. 8 : got[s][i].data[a] = got[s][i].data[b]
+                 /\ (got[s][i].k = "ok" /\ Len(got[s][i].data) = 8 /\ Which \in {"torn", "three"}) => \A a, b \in 1 .. 8 : got[s][i].data[a] = got[s][i].data[b]
+                 \* the attribute's octets (the last 16 of the reply data: eight 16-bit elements) are those of ONE write
+                 /\ (got[s][i].k = "okbytes" /\ Which = "attr") =>
+                       LET d == got[s][i].data  n == Len(d) IN \A a, b \in 0 .. 7 : d[n - 15 + 2 * a] = d[n - 15 + 2 * b]
 
 \* ---- emission: the scenario with each session's request frames, and the thread schedules
-Frame(s, r) == [kind |-> "rr", sess |-> <<s, 0, 0, 0>>, ctx |-> <<s, 1, 2, 3, 4, 5, 6, 7>>, wrap |-> "ucsend",
-                route |-> << [k |-> "port", p |-> 1, l |-> 0] >>, tmo |-> 5, req |-> r]
+Frame(s, r) == IF IsConn(r) THEN [kind |-> r.svc, sess |-> <<s, 0, 0, 0>>, ctx |-> <<s, 1, 2, 3, 4, 5, 6, 7>>, wrap |-> "simple", route |-> <<>>, tmo |-> 5,
+                                  req |-> r, fo |-> r.fo]
+               ELSE IF "cid" \in DOMAIN r THEN [kind |-> "unit", sess |-> <<s, 0, 0, 0>>, ctx |-> <<s, 1, 2, 3, 4, 5, 6, 7>>, wrap |-> "simple", route |-> <<>>,
+                                                tmo |-> 0, req |-> r, cid |-> r.cid, seq |-> s]
+               ELSE [kind |-> "rr", sess |-> <<s, 0, 0, 0>>, ctx |-> <<s, 1, 2, 3, 4, 5, 6, 7>>, wrap |-> "ucsend",
+                     route |-> << [k |-> "port", p |-> 1, l |-> 0] >>, tmo |-> 5, req |-> r]
 ASSUME PrintT(ToJson([k |-> "scenario", which |-> Which, cfg |-> KCfg, mem0 |-> KMem0,
                       ops |-> [ s \in 1 .. Len(KOps) |-> [ i \in 1 .. Len(KOps[s]) |->
-                                 [r |-> KOps[s][i], fb |-> FrameBytes(KCfg, Frame(s, KOps[s][i]))] ] ]]))
+                                 [r |-> KOps[s][i], kind |-> Frame(s, KOps[s][i]).kind, fb |-> FrameBytes(KCfg, Frame(s, KOps[s][i]))] ] ]]))
 \* thread schedules: session `f' runs `a' scheduling points, then session `g' runs `b' points (99 = to completion), then the rest
 Schedules == { <<f, a, g, b>> : f \in 1 .. Len(KOps), a \in 0 .. 80, g \in 1 .. Len(KOps), b \in (1 .. 16) \cup {99} }
 ASSUME PrintT(ToJson([k |-> "schedules", s |-> { x \in Schedules : x[1] # x[3] }]))
